@@ -85,8 +85,12 @@ def tree_case(rep, drv, rng, th):
 	h = {l: rng.choice([1, 2, 3, 5]) for l in labels}
 	z = {l: rng.choice([1, 1.645]) for l in labels}
 	sinks = [l for l in labels if not succ[l]]; sources = [l for l in labels if not pred[l]]
-	mean = {l: (rng.choice([5, 10]) if l in sinks else None) for l in labels}
-	sd = {l: (rng.choice([1, 2, 4]) if l in sinks else None) for l in labels}
+	# demand at every sink, and sometimes at an internal stage that also sells to the outside
+	own = {l: (l in sinks or rng.random() < .25) for l in labels}
+	mean = {l: (rng.choice([5, 10]) if own[l] else None) for l in labels}
+	sd = {l: (rng.choice([1, 2, 4]) if own[l] else None) for l in labels}
+	if any(own[l] and l not in sinks for l in labels):
+		rep.count('tree:internal-stage-with-own-demand')
 	extIn = {l: (rng.choice([0, 0, 1, 2]) if l in sources else None) for l in labels}
 	extOut = {l: (rng.choice([0, 0, 1, 3]) if l in sinks else None) for l in labels}
 	case = {'kind': kind, 'labels': labels, 'edges': edges, 'T': T, 'h': h, 'z': z, 'sd': sd, 'extIn': extIn, 'extOut': extOut}
@@ -98,7 +102,7 @@ def tree_case(rep, drv, rng, th):
 			return network_from_edges([(rl(a), rl(b)) for a, b in edges],
 				processing_time={rl(l): T[l] for l in labels}, local_holding_cost={rl(l): h[l] for l in labels},
 				demand_bound_constant={rl(l): z[l] for l in labels}, external_inbound_cst={rl(l): extIn[l] for l in labels},
-				external_outbound_cst={rl(l): extOut[l] for l in labels}, demand_type={rl(l): ('N' if l in sinks else None) for l in labels},
+				external_outbound_cst={rl(l): extOut[l] for l in labels}, demand_type={rl(l): ('N' if own[l] else None) for l in labels},
 				mean={rl(l): mean[l] for l in labels}, standard_deviation={rl(l): sd[l] for l in labels})
 	try:
 		with warnings.catch_warnings():
@@ -132,6 +136,59 @@ def tree_case(rep, drv, rng, th):
 		bad.append('returned CSTs %s are infeasible: net lead times %s, outbound limits %s' % (dict(cst), ev['nlt'], extOut))
 	elif not close(cost, unfr(ev['cost'])):
 		bad.append('reported cost %r != safety-stock cost of the returned CSTs %r' % (cost, float(unfr(ev['cost']))))
+	desc_of = {}
+	for l in reversed(order):
+		desc_of[l] = set()
+		for s_ in succ[l]:
+			desc_of[l] |= {s_} | desc_of[s_]
+	# the solution evaluators of gsm_helpers (cost / inbound CST / net lead time / base-stock and safety-stock levels of a GIVEN solution)
+	# against the model evaluators, on the returned vector and on a random one
+	try:
+		from stockpyl import gsm_helpers
+		with warnings.catch_warnings():
+			warnings.simplefilter('ignore')
+			tree = gsm_tree.preprocess_tree(build())
+		for which, cv in (('returned', {l: int(cst[l]) for l in order}), ('random', {l: rng.randint(0, M[l]) for l in order})):
+			for l in sinks:
+				if extOut[l] is not None and which == 'random':
+					cv[l] = min(cv[l], extOut[l])
+			evh = drv.call('gsmtree', nodes=nodes, cst=[cv[l] for l in order])
+			with warnings.catch_warnings():
+				warnings.simplefilter('ignore')
+				nlt_h = gsm_helpers.net_lead_time(tree, list(labels), cv)
+				si_h = gsm_helpers.inbound_cst(tree, list(labels), cv)
+			for i, l in enumerate(order):
+				si_ref = max([extIn[l] or 0] + [cv[q] for q in pred[l]])
+				if si_h[l] != si_ref:
+					bad.append('inbound_cst(%s) = %s for the %s CSTs %s, documented max(external, suppliers) = %s' % (l, si_h[l], which, cv, si_ref))
+				if nlt_h[l] != evh['nlt'][i]:
+					bad.append('net_lead_time(%s) = %s for the %s CSTs %s, model %s' % (l, nlt_h[l], which, cv, evh['nlt'][i]))
+			if evh['feasible']:
+				with warnings.catch_warnings():
+					warnings.simplefilter('ignore')
+					c_h = gsm_helpers.solution_cost_from_cst(tree, cv)
+					ss_h = gsm_helpers.safety_stock_levels(tree, list(labels), cv)
+					bs_h = gsm_helpers.cst_to_base_stock_levels(tree, list(labels), cv)
+					c_b = gsm_helpers.solution_cost_from_base_stock_levels(tree, bs_h)
+				rep.tol_cmp += 2
+				if not close(c_h, unfr(evh['cost'])):
+					bad.append('solution_cost_from_cst(%s CSTs %s) = %r, model %r' % (which, cv, c_h, float(unfr(evh['cost']))))
+				# solution_cost_from_base_stock_levels is documented as holding cost x (level - demand mean): check exactly that
+				want_cb = sum(h[l] * (bs_h[l] - (sum(mean[s_] for s_ in labels if own[s_] and (s_ == l or s_ in desc_of[l])))) for l in order)
+				if not close(c_b, want_cb, 1e-9):
+					bad.append('solution_cost_from_base_stock_levels = %r, documented sum h*(level - net demand mean) = %r' % (c_b, want_cb))
+				for i, l in enumerate(order):
+					nm = sum(mean[s_] for s_ in labels if own[s_] and (s_ == l or s_ in desc_of[l]))
+					if not close(bs_h[l], nm * evh['nlt'][i] + ss_h[l], 1e-9):
+						bad.append('cst_to_base_stock_levels(%s) = %r, net demand mean x NLT + safety stock = %r' % (l, bs_h[l], nm * evh['nlt'][i] + ss_h[l]))
+				for i, l in enumerate(order):
+					want_ss = z[l] * math.sqrt(var[l]) * math.sqrt(evh['nlt'][i])
+					if not close(ss_h[l], want_ss, 1e-9):
+						bad.append('safety_stock_levels(%s) = %r, z*sigma*sqrt(NLT) = %r' % (l, ss_h[l], want_ss))
+		rep.count('tree:helpers-checked')
+	except Exception as e:
+		import traceback
+		bad.append('gsm_helpers raised %s: %s' % (err_enum(e), traceback.format_exc()[-200:]))
 	bounds = [min(M[l], extOut[l]) if (l in sinks and extOut[l] is not None) else M[l] for l in order]
 	size = 1
 	for b in bounds:
@@ -155,7 +212,7 @@ def tree_case(rep, drv, rng, th):
 	except Exception as e:
 		bad.append('relabelled instance raised %s' % err_enum(e))
 	# serial systems: serial and tree algorithms agree
-	if kind == 'serial' and all(extIn[l] in (None, 0) or l in sources for l in labels):
+	if kind == 'serial' and all(extIn[l] in (None, 0) or l in sources for l in labels) and all(own[l] == (l in sinks) for l in labels):
 		from stockpyl import gsm_serial
 		chain = order      # upstream first
 		N = len(chain)
